@@ -207,7 +207,7 @@ Proof. destruct w; repeat split. Qed.
 Lemma null_watchers_lite ws : forall st, lite st (null_watchers ws st).
 Proof.
   induction ws as [|w ws IH]; intro st; cbn [null_watchers]; [apply lite_refl|].
-  eapply lite_trans; [apply set_connptr_lite|apply IH].
+  eapply lite_trans; [|apply IH]. destruct (get_connptr w st); [apply set_connptr_lite|apply lite_refl].
 Qed.
 
 Lemma set_track_lite t tr st : lite st (set_track t tr st).
@@ -1127,6 +1127,11 @@ Proof. intros Hy E. apply (Y_Casc st); [eapply watch_add_Casc; eauto|eapply watc
 Lemma watch_remove_y p w st st' : QY st -> watch_remove p w st = Ok st' -> QY st'.
 Proof. intros Hy E. apply (Y_Casc st); [eapply watch_remove_Casc; eauto|eapply watch_remove_x; [exact (proj1 Hy)|exact E]|exact Hy]. Qed.
 
+(* destruction of a connection object (OCDel, and the collection of a shared one) *)
+Lemma conn_destroy_y c p st st1 : QY st -> watch_remove p (WC c) st = Ok st1 ->
+  QY (with_conns (aset c None (conns st1)) st1).
+Proof. intros Hy E1. eapply Y_lite; [|eapply watch_remove_y; eauto]. repeat split. Qed.
+
 Lemma conn_set_y w p st st' : QY st -> conn_set w p st = Ok st' -> QY st'.
 Proof.
   intros Hy. unfold conn_set. destruct (get_connptr w st) as [old|]; [|discriminate].
@@ -1392,7 +1397,7 @@ Section QStep.
     | _ => True
     end.
   Proof.
-    intros H Hy. destruct o as [t|t|td ts|td ts|t|t|t|s rk body refs|s rk|sn so|sn so|sd ss|sd ss|s arg catch|s b|s|s|s|g k|gn go|gn go|gd gs|gd gs|g|g|g|g s c front mv|g arg catch|g|g b|g|s g|c|cn co|cd cs|c|c b|c|c|k c|k|k c|kn ko|kd ks|k1 k2|k c|k|k b|k|k| | ]; try exact I; cbn [step].
+    intros H Hy. destruct o as [t|t|td ts|td ts|t|t|t|s rk body refs|s rk|sn so|sn so|sd ss|sd ss|s arg catch|s b|s|s|s|g k|gn go|gn go|gd gs|gd gs|g|g|g|g s c front mv|g arg catch|g|g b|g|s g|c|cn co|cd cs|c|c b|c|c|c|c|k c|k|k c|kn ko|kd ks|k1 k2|k c|k|k b|k|k| | ]; try exact I; cbn [step].
     - destruct (fresh_track t st && N.ltb t 1000); [|apply skip_y; exact Hy].
       cbn [out_y]. eapply Y_lite; [|exact Hy]. repeat split.
     - destruct (live_track t st); [|apply skip_y; exact Hy].
@@ -1423,7 +1428,7 @@ Section QStep.
     | _ => True
     end.
   Proof.
-    intros H Hy. pose proof (wf_c _ H) as Hc. destruct o as [t|t|td ts|td ts|t|t|t|s rk body refs|s rk|sn so|sn so|sd ss|sd ss|s arg catch|s b|s|s|s|g k|gn go|gn go|gd gs|gd gs|g|g|g|g s c front mv|g arg catch|g|g b|g|s g|c|cn co|cd cs|c|c b|c|c|k c|k|k c|kn ko|kd ks|k1 k2|k c|k|k b|k|k| | ]; try exact I; cbn [step].
+    intros H Hy. pose proof (wf_c _ H) as Hc. destruct o as [t|t|td ts|td ts|t|t|t|s rk body refs|s rk|sn so|sn so|sd ss|sd ss|s arg catch|s b|s|s|s|g k|gn go|gn go|gd gs|gd gs|g|g|g|g s c front mv|g arg catch|g|g b|g|s g|c|cn co|cd cs|c|c b|c|c|c|c|k c|k|k c|kn ko|kd ks|k1 k2|k c|k|k b|k|k| | ]; try exact I; cbn [step].
     - (* OSNew *)
       destruct (fresh_slot s st && _ && _); [|apply skip_y; exact Hy].
       destruct (bind_all (next_rid st) refs (with_next_rid (next_rid st + 1) st)) as [st2|] eqn:E; [|exact I].
@@ -1524,7 +1529,7 @@ Section QStep2.
     | _ => True
     end.
   Proof.
-    intros H Hy. pose proof (wf_c _ H) as Hc. destruct o as [t|t|td ts|td ts|t|t|t|s rk body refs|s rk|sn so|sn so|sd ss|sd ss|s arg catch|s b|s|s|s|g k|gn go|gn go|gd gs|gd gs|g|g|g|g s c front mv|g arg catch|g|g b|g|s g|c|cn co|cd cs|c|c b|c|c|k c|k|k c|kn ko|kd ks|k1 k2|k c|k|k b|k|k| | ]; try exact I; cbn [step].
+    intros H Hy. pose proof (wf_c _ H) as Hc. destruct o as [t|t|td ts|td ts|t|t|t|s rk body refs|s rk|sn so|sn so|sd ss|sd ss|s arg catch|s b|s|s|s|g k|gn go|gn go|gd gs|gd gs|g|g|g|g s c front mv|g arg catch|g|g b|g|s g|c|cn co|cd cs|c|c b|c|c|c|c|k c|k|k c|kn ko|kd ks|k1 k2|k c|k|k b|k|k| | ]; try exact I; cbn [step].
     - (* OGNew *)
       unfold fresh_sig. destruct (aget g (sigs st)) eqn:Hf; cbn [andb]; [apply skip_y; exact Hy|].
       destruct (negb (gk_track k) || fresh_track (trackable_of_sig g) st); [|apply skip_y; exact Hy].
@@ -1716,13 +1721,13 @@ Section QStep3.
 
   Lemma step_conn_y o st : WF st -> QY st ->
     match o with
-    | OCEmpty _ | OCCopy _ _ | OCAssign _ _ | OCDisc _ | OCBlock _ _ | OCDel _ | OCQuery _
+    | OCEmpty _ | OCCopy _ _ | OCAssign _ _ | OCDisc _ | OCBlock _ _ | OCShare _ | OCRelease _ | OCDel _ | OCQuery _
     | OKNew _ _ | OKEmpty _ | OKAssign _ _ | OKMove _ _ | OKMoveAssign _ _ | OKSwap _ _ | OKRelease _ _
     | OKDisc _ | OKBlock _ _ | OKDel _ | OKQuery _ => out_y (step prog rec o st)
     | _ => True
     end.
   Proof.
-    intros H Hy. pose proof (wf_c _ H) as Hc. destruct o as [t|t|td ts|td ts|t|t|t|s rk body refs|s rk|sn so|sn so|sd ss|sd ss|s arg catch|s b|s|s|s|g k|gn go|gn go|gd gs|gd gs|g|g|g|g s c front mv|g arg catch|g|g b|g|s g|c|cn co|cd cs|c|c b|c|c|k c|k|k c|kn ko|kd ks|k1 k2|k c|k|k b|k|k| | ]; try exact I; cbn [step].
+    intros H Hy. pose proof (wf_c _ H) as Hc. destruct o as [t|t|td ts|td ts|t|t|t|s rk body refs|s rk|sn so|sn so|sd ss|sd ss|s arg catch|s b|s|s|s|g k|gn go|gn go|gd gs|gd gs|g|g|g|g s c front mv|g arg catch|g|g b|g|s g|c|cn co|cd cs|c|c b|c|c|c|c|k c|k|k c|kn ko|kd ks|k1 k2|k c|k|k b|k|k| | ]; try exact I; cbn [step].
     - (* OCEmpty *)
       destruct (fresh_conn c st); [|apply skip_y; exact Hy]. cbn [out_y]. eapply Y_lite; [apply set_connptr_lite|exact Hy].
     - (* OCCopy *)
@@ -1738,10 +1743,19 @@ Section QStep3.
       apply liftu_y. intros st' E. eapply conn_disconnect_y; eauto.
     - (* OCBlock *)
       destruct (get_connptr (WC c) st) as [p|]; [|apply skip_y; exact Hy]. apply conn_block_y. exact Hy.
+    - (* OCShare *)
+      destruct (get_connptr (WC c) st) as [p|]; [|apply skip_y; exact Hy].
+      destruct (negb (is_shared (conn_key c) st) && N.ltb c 1000); [|apply skip_y; exact Hy].
+      cbn [out_y]. eapply Y_lite; [|exact Hy]. repeat split.
+    - (* OCRelease *)
+      destruct (get_connptr (WC c) st) as [p|]; [|apply skip_y; exact Hy].
+      destruct (is_shared (conn_key c) st && negb (is_released (conn_key c) st)); [|apply skip_y; exact Hy].
+      cbn [out_y]. eapply Y_lite; [|exact Hy]. repeat split.
     - (* OCDel *)
       destruct (get_connptr (WC c) st) as [p|]; [|apply skip_y; exact Hy].
+      destruct (negb (is_shared (conn_key c) st)); [|apply skip_y; exact Hy].
       apply liftu_y. intros st' E. destruct (watch_remove p (WC c) st) as [st1|] eqn:E1; cbn [rbind] in E; [|discriminate].
-      inversion E; subst st'. eapply Y_lite; [|eapply watch_remove_y; eauto]. repeat split.
+      inversion E; subst st'. eapply conn_destroy_y; eauto.
     - (* OCQuery *)
       destruct (get_connptr (WC c) st) as [p|]; [|apply skip_y; exact Hy]. apply conn_query_y. exact Hy.
     - (* OKNew *)
@@ -1841,11 +1855,14 @@ Section QStep3.
       destruct (find_orphan_spec _ _ _ _ Hfo) as (rel & Hin & Hlive).
       assert (Hk : shkey t).
       { pose proof (wf_shared _ H) as F. unfold shared_ok in F. rewrite Forall_forall in F. exact (F (t, rel) Hin). }
-      destruct (N.leb_spec 2000 t) as [Hge|Hlt].
+      destruct (N.leb_spec 4000 t) as [Hge4|Hlt4]; [|destruct (N.leb_spec 2000 t) as [Hge|Hlt]].
+      + destruct (get_connptr (WC (t - 4000)) st) as [p|] eqn:Hp; [|discriminate].
+        destruct (conn_destroy_full (t - 4000) p st H Hp) as (st1 & E & _ & _ & G). rewrite E. cbn [rbind].
+        apply (IH _ _ (proj1 G)). eapply conn_destroy_y; eauto.
       + destruct (live_sig (t - 2000) st) as [go|] eqn:Hl; [|discriminate].
         destruct (sig_destroy_G (t - 2000) go st H Hl) as (st1 & E & G). rewrite E. cbn [rbind].
         apply (IH _ _ (proj1 G)). eapply sig_destroy_y; eauto.
-      + assert (Ht : t < 1000) by (destruct Hk as [|[]]; [assumption|lia]).
+      + assert (Ht : t < 1000) by (destruct Hk as [|[[]|[]]]; [assumption|lia|lia]).
         destruct (del_user_track_G t st H Ht) as (st1 & E & C & G). rewrite E. cbn [rbind].
         apply (IH _ _ (proj1 G)). eapply Y_lite; [|eapply track_notify_y; eauto]. repeat split.
   Qed.
